@@ -132,6 +132,7 @@ LinkFile(tree, name) ==
                       IF \E i \in 1..Len(ins) : ins[i].name \notin NameSet(res) THEN LErr("insert names no reserve of the layout", name, name)
                       ELSE IF ~linked.ok THEN linked
                       ELSE [ok |-> TRUE, prog |-> Fill(lay.body, Collect(linked.ss, "insert")), layout |-> Collect(f.body, "reserve") # <<>>,
-                            useInLayout |-> lay.use # NoUse]
+                            \* a layout "uses a layout" when a @use is written anywhere in it, evaluated or not
+                            useInLayout |-> lay.use # NoUse \/ Collect(lay.body, "use") # <<>>]
 
 =============================================================================
